@@ -15,6 +15,7 @@ import (
 	"github.com/NethermindEth/juno/blockchain/networks"
 	"github.com/NethermindEth/juno/core"
 	"github.com/NethermindEth/juno/db"
+	"github.com/NethermindEth/juno/db/memory"
 	"github.com/NethermindEth/juno/feed"
 	"github.com/NethermindEth/juno/pruner"
 	"github.com/NethermindEth/juno/utils/log"
@@ -238,4 +239,43 @@ func newPrunedChain(store db.KeyValueStore, newState bool) (*blockchain.Blockcha
 		return nil, nil, err
 	}
 	return bc, floor, nil
+}
+
+// ---------------------------------------------------------------- memory store with cheap read-only iterators
+
+// fastMem is Juno's in-memory store with one shortcut: an indexed batch that holds no
+// writes iterates the database directly instead of first copying the whole store (the
+// stock implementation copies it for every NewIterator, and the legacy state history
+// opens one iterator per historical read). For a batch without writes both give the
+// same sequence. Write paths are untouched.
+type fastMem struct{ *memory.Database }
+
+func newFastMem() fastMem { return fastMem{memory.New()} }
+
+func (f fastMem) NewIndexedBatch() db.IndexedBatch {
+	return &fastIB{IndexedBatch: f.Database.NewIndexedBatch(), d: f.Database}
+}
+
+func (f fastMem) NewIndexedBatchWithSize(n int) db.IndexedBatch {
+	return &fastIB{IndexedBatch: f.Database.NewIndexedBatchWithSize(n), d: f.Database}
+}
+
+type fastIB struct {
+	db.IndexedBatch
+	d     *memory.Database
+	dirty bool
+}
+
+func (b *fastIB) Put(k, v []byte) error { b.dirty = true; return b.IndexedBatch.Put(k, v) }
+func (b *fastIB) Delete(k []byte) error { b.dirty = true; return b.IndexedBatch.Delete(k) }
+func (b *fastIB) DeleteRange(s, e []byte) error {
+	b.dirty = true
+	return b.IndexedBatch.DeleteRange(s, e)
+}
+
+func (b *fastIB) NewIterator(prefix []byte, withUpperBound bool) (db.Iterator, error) {
+	if b.dirty {
+		return b.IndexedBatch.NewIterator(prefix, withUpperBound)
+	}
+	return b.d.NewIterator(prefix, withUpperBound)
 }
